@@ -88,6 +88,7 @@ package server
 
 //@ iface net.Conn.SetWriteDeadline(t time.Time) (err error)
 //@   modifies nothing
+//@   ghostset wdlAsmCalls := asmCalls
 
 //@ iface net.Conn.Read(p []byte) (n int, err error)
 //@   modifies p
@@ -100,6 +101,7 @@ package server
 //@ iface net.Conn.Write(p []byte) (n int, err error)
 //@   requires[C15] connWrites < asmCalls && p == lastAsmOut && !isnil(p)
 //@   requires[C17] lastBoolStore
+//@   requires[C17] wdlAsmCalls == asmCalls
 //@   modifies nothing
 //@   ghostset connWrites := old(connWrites) + 1
 
@@ -165,12 +167,12 @@ package server
 //@ func (c *connection) handle(ctx context.Context)
 //@   requires c != nil && ctx != nil && c.conn != nil && c.assembler != nil && c.onErrorFunc != nil && asmCalls == connWrites
 //@   safety[C15,C17]
-//@   modifies c.isBeingHandled, connReads, connWrites, asmCalls, lastAsmOut, lastReadN, lastReadBuf, errorCbs, faults, dataReads, asmInv, lastBoolStore
+//@   modifies c.isBeingHandled, connReads, connWrites, wdlAsmCalls, asmCalls, lastAsmOut, lastReadN, lastReadBuf, errorCbs, faults, dataReads, asmInv, lastBoolStore
 //@   ensures[C15] connWrites - old(connWrites) == asmCalls - old(asmCalls)
 //@   ensures[C15.everyread] asmInv - old(asmInv) == dataReads - old(dataReads)
 //@   ensures[C17] closes == old(closes)
 //@   loop 0
-//@     modifies received, c.isBeingHandled, connReads, connWrites, asmCalls, lastAsmOut, lastReadN, lastReadBuf, errorCbs, faults, dataReads, asmInv, lastBoolStore
+//@     modifies received, c.isBeingHandled, connReads, connWrites, wdlAsmCalls, asmCalls, lastAsmOut, lastReadN, lastReadBuf, errorCbs, faults, dataReads, asmInv, lastBoolStore
 //@     invariant[C15] asmCalls == connWrites
 //@     invariant[C15] asmInv - old(asmInv) == dataReads - old(dataReads)
 
@@ -178,7 +180,7 @@ package server
 //@   requires s != nil && conn != nil && c != nil && ctx != nil && conn.conn != nil && conn.assembler != nil && conn.onErrorFunc != nil && asmCalls == connWrites && muState == 0
 //@   safety[C16,C17]
 //@   structural[C16,C17]
-//@   modifies conn.isBeingHandled, s.activeConnections, s.activeConnectionCount, connReads, connWrites, asmCalls, lastAsmOut, lastReadN, lastReadBuf, errorCbs, tracks, untracks, closes, closeCbs, faults, liveCount, atomicTrueLoads, dataReads, asmInv, lastBoolStore
+//@   modifies conn.isBeingHandled, s.activeConnections, s.activeConnectionCount, connReads, connWrites, wdlAsmCalls, asmCalls, lastAsmOut, lastReadN, lastReadBuf, errorCbs, tracks, untracks, closes, closeCbs, faults, liveCount, atomicTrueLoads, dataReads, asmInv, lastBoolStore
 //@   ensures[C17.once] closes == old(closes) + 1 && untracks == old(untracks) + 1 && tracks == old(tracks)
 //@   ensures[C17.once] s.OnCloseConnFunc != nil ==> closeCbs == old(closeCbs) + 1
 //@   ensures[C17.once] s.OnCloseConnFunc == nil ==> closeCbs == old(closeCbs)
